@@ -64,7 +64,7 @@ static unsigned long long f_addr, f_ext;
 static char line_kind, moto_type;
 static unsigned long long base_addr;            /* Intel extended address base */
 static long long next_addr = -1;                 /* address expected for the next data byte (contiguity) */
-static unsigned long data_bytes, data_lines, s5_count; static int s5_seen;
+static unsigned long data_bytes, data_lines, s5_count, s5_lines; static int s5_seen;   /* s5_lines: data lines since the last S5 (p2hex announces each record's group) */
 static unsigned long long exp_first, exp_last; static int exp_any;   /* clipped, relocated address range expected */
 static unsigned mos_c1, mos_c2;
 
@@ -151,8 +151,8 @@ static void end_line(void)
   {
     CHECK(idx == (int)f_len + 1, "Motorola: count field = bytes that follow");
     CHECK((lsum & 0xff) == 0xff, "Motorola: one's complement checksum");
-    if (moto_type >= '1' && moto_type <= '3') data_lines++;
-    else if (moto_type == '5') { s5_seen = 1; s5_count = (unsigned long)f_addr; }
+    if (moto_type >= '1' && moto_type <= '3') { data_lines++; s5_lines++; }
+    else if (moto_type == '5') { if (s5_seen) CHECK(s5_count == s5_lines, "Motorola S5: count of the data records of its group"); s5_seen = 1; s5_count = (unsigned long)f_addr; s5_lines = 0; }
     else if (moto_type == '0') { }
     else if (moto_type >= '7' && moto_type <= '9') {
 #if FMTN == 1
@@ -277,11 +277,13 @@ void harness(void)
 #if CF_R > 1
   CHECK(data_bytes == (unsigned long)in_rlen[0] + in_rlen[1], "every byte of both records is emitted exactly once, nothing else");
   if (in_rstart[1] < in_rstart[0]) WITNESS("second record lies below the first");
+#if FMTN == 1 || FMTN == 3 || FMTN == 4
   if ((in_rstart[0] >> 16) != ((in_rstart[0] + in_rlen[0] - 1) >> 16) && (in_rstart[1] >> 16) == (in_rstart[0] >> 16)) WITNESS("first record crosses a 64K boundary, second starts in the first one's bank");
+#endif
 #else
   CHECK(data_bytes == (exp_any ? (unsigned long)(e - s + 1) : 0), "every selected byte is emitted exactly once, nothing else");
 #endif
-  if (s5_seen) { CHECK(s5_count == data_lines, "Motorola S5: count of data records");
+  if (s5_seen) { CHECK(s5_count == s5_lines, "Motorola S5: count of the data records of its group");
 #if FMTN == 1
     WITNESS("S5 record");
 #endif
